@@ -202,6 +202,17 @@ func genEngineCfg(r *rand.Rand, p genParams) EngineCfg {
 		c.Conns = append(c.Conns, ops)
 		c.Ctx0 = append(c.Ctx0, p.PCancel > 0 && r.Intn(12) == 0)
 	}
+	if p.Mode == "zerobudget" {
+		// a retry budget of zero or less: the attempt loop never runs (outside every property; conformance with the
+		// specification only)
+		for i := range c.Nodes {
+			// (leaves only: a flow with such a budget does nothing, and on a cycle of its parent the run spins for ever;
+			// flows with a budget below one are part of the model-checked family, off any cycle)
+			if c.Nodes[i].Retry && c.Nodes[i].Kind != "flow" && r.Intn(2) == 0 {
+				c.Nodes[i].N = -r.Intn(2)
+			}
+		}
+	}
 	c.Outs = []string{"ok", "err"}
 	c.Cancel = p.PCancel > 0
 	c.CtxKind = "cancel"
@@ -247,6 +258,9 @@ func paramsFor(mode string) genParams {
 			p.PCancel = 0
 			p.MaxVisits = 8
 		}
+	case "zerobudget":
+		p.MaxFlows, p.MaxLeaves, p.MaxRuns = 2, 4, 1
+		p.PExecErr, p.PFbErr = 0.3, 0.3
 	case "batchflow": // flows whose steps are mostly batch nodes, cancelled from inside an item
 		p.PBLeaf = 0.75
 		p.MaxFlows, p.MaxLeaves, p.MaxRuns = 2, 4, 2
